@@ -342,8 +342,8 @@ class Alphabet:
         if 'verb' not in self.cont or not ctx[3]:
             return []
         out = []
-        for vname, body in (('verbatim', ' $ '), ('lstlisting', '\\' + self.N.x + '{'), ('verbatim', 'a}\n%c\n'),
-                            ('verbatim', '\n')):
+        for vname, body in (('verbatim', ' $ '), ('lstlisting', '\\' + self.N.x + '{'), ('Verbatim', 'a}\n%c\n'),
+                            ('listing', '\n'), ('verbatimtab', '$' + self.N.a)):
             out.append(('\\begin{%s}%s\\end{%s}' % (vname, body, vname),
                         (('E', vname, (), (('T', body),)),), 'env'))
         return out
